@@ -339,6 +339,125 @@ theorem lookups_find_everything (depth : Nat) (info : List (Option Str)) (url : 
   · have := findIdx_self (fun x : ActM => x.name) s.actions [] (by simpa using h)
     simpa [lookOf, List.range_eq_range'] using this
 
+/-- **Metadata, declaratively.** For a variable of a supported type the created state variable carries:
+    the stripped `<name>`, the `<dataType>` text, the evented flag `sendEventsOf`, and as `min_value` /
+    `max_value` / `allowed_values` / `default_value` the type's own converter (`coercePython`, whose meaning is
+    C08's) applied to the text of `<minimum>` / `<maximum>` / every `<allowedValue>` (an empty one is `""`
+    for the string types and skipped otherwise) / `<defaultValue>` — each element feeding its own field. -/
+theorem mirrorVar_meta (nonStrict : Bool) (v : VarSpec) (dt : Str) (row : TypeRow) (m : VarM F)
+    (hdt : v.dataType = some dt) (hrow : table.row? dt = some row) (h : mirrorVar fo table nonStrict v = .ok m) :
+    m.name = stripWs (v.name.getD []) ∧ m.dataType = dt ∧ m.sendEvents = sendEventsOf v
+    ∧ m.min = R.ofExcept (optM (coercePython fo table row) (v.range.bind (·.1)))
+    ∧ m.max = R.ofExcept (optM (coercePython fo table row) (v.range.bind (·.2.1)))
+    ∧ m.allowed = R.ofExcept (mapM' (coercePython fo table row)
+        ((v.allowed.map fun l => allowedTexts (row.ty == .str) (l.map fun s => if s.isEmpty then none else some s)).getD []))
+    ∧ m.default = R.ofExcept (optM (coercePython fo table row) v.default) := by
+  unfold mirrorVar at h
+  rw [hdt] at h
+  obtain ⟨h1, h2, h3, h4, h5, h6, h7⟩ := varOf_fields fo table nonStrict _ _ _ _ dt row _ _ m hrow h
+  refine ⟨h1, h2, ?_, ?_, ?_, ?_, h7⟩
+  · rw [h3]; unfold sendEventsOf eventedOf; cases v.seAttr <;> cases v.seElem <;> rfl
+  · rw [h4]; cases v.range <;> rfl
+  · rw [h5]; cases v.range <;> rfl
+  · rw [h6]; cases v.allowed <;> rfl
+
+/-- **se_link.** the evented flag of every created variable is `sendEventsOf` of its description (so
+    `send_events_spec` speaks about the created object model) -/
+theorem se_link (nonStrict : Bool) (v : VarSpec) (m : VarM F) (h : mirrorVar fo table nonStrict v = .ok m) :
+    m.sendEvents = sendEventsOf v := by
+  unfold mirrorVar varOf at h
+  cases hdt : v.dataType with
+  | none => simp [hdt] at h
+  | some dt =>
+    rw [hdt] at h
+    simp only at h
+    cases hrow : table.row? dt with
+    | none => simp [hrow] at h
+    | some row =>
+      have h' : mirrorVar fo table nonStrict v = .ok m := by
+        unfold mirrorVar varOf; rw [hdt]; exact h
+      exact (mirrorVar_meta fo nonStrict v dt row m hdt hrow h').2.2.1
+
+/-- under `wf` the declared minimum of a typed variable is read as the value its text denotes -/
+theorem mirrorVar_min_value (nonStrict : Bool) (v : VarSpec) (dt : Str) (row : TypeRow) (m : VarM F) (s : Str)
+    (hdt : v.dataType = some dt) (hrow : table.row? dt = some row) (hw : VarSpec.wf fo table v = true)
+    (hmin : v.range.bind (·.1) = some s) (h : mirrorVar fo table nonStrict v = .ok m) :
+    ∃ x, coercePython fo table row s = .ok x ∧ m.min = .ok (some x) := by
+  have hm := (mirrorVar_meta fo nonStrict v dt row m hdt hrow h).2.2.2.1
+  unfold VarSpec.wf at hw
+  rw [hdt] at hw
+  simp only [hrow, Bool.and_eq_true] at hw
+  obtain ⟨⟨⟨⟨⟨_, hden⟩, _⟩, _⟩, _⟩, _⟩ := hw
+  have hd : isOk (coercePython fo table row s) = true := by
+    cases hr : v.range with
+    | none => rw [hr] at hmin; cases hmin
+    | some r =>
+      obtain ⟨a, b, c⟩ := r
+      rw [hr] at hmin hden
+      simp only [Option.bind_some] at hmin
+      subst hmin
+      simp only [Bool.and_eq_true] at hden
+      exact hden.2.1
+  cases hc : coercePython fo table row s with
+  | error e => rw [hc] at hd; cases hd
+  | ok x => exact ⟨x, rfl, by rw [hm, hmin]; simp [optM, hc, R.ofExcept]⟩
+
+/-- **`urljoin` laws.** An empty reference is the base; a reference whose scheme (the text before its first
+    `:`, if that is a scheme name) differs from the base's is returned unchanged. (The rest of the
+    resolution is modelled and compared with the code on every URL of every case; see `urljoin_samples`.) -/
+theorem urljoin_laws (base ref : Str) (b : Url) (hb : parseAbs base = some b) :
+    urljoin base [] = some base
+    ∧ (∀ sch rest, ref ≠ [] → okChars ref = true → splitScheme ref = some (sch, rest) → sch ≠ b.scheme →
+        urljoin base ref = some ref) := by
+  refine ⟨by simp [urljoin], ?_⟩
+  intro sch rest hne hok hs hdiff
+  unfold urljoin
+  have h1 : ref.isEmpty = false := by cases ref <;> simp_all
+  have h2 : (sch == b.scheme) = false := by simpa using hdiff
+  simp [h1, hb, hok, hs, h2]
+
+/-- the table of (description URL, reference, result) below: results computed by CPython 3.12 `urljoin` -/
+def urlSamples : List (Str × Str × Str) := [
+   (['h','t','t','p',':','/','/','1','0','.','0','.','0','.','1','/','a','/','b','/','d','e','s','c','.','x','m','l','?','x','=','1'], ['/','c','t','l'], ['h','t','t','p',':','/','/','1','0','.','0','.','0','.','1','/','c','t','l']),
+   (['h','t','t','p',':','/','/','1','0','.','0','.','0','.','1','/','a','/','b','/','d','e','s','c','.','x','m','l','?','x','=','1'], ['c','t','l','/','1'], ['h','t','t','p',':','/','/','1','0','.','0','.','0','.','1','/','a','/','b','/','c','t','l','/','1']),
+   (['h','t','t','p',':','/','/','1','0','.','0','.','0','.','1','/','a','/','b','/','d','e','s','c','.','x','m','l','?','x','=','1'], ['.','.','/','e','v','t'], ['h','t','t','p',':','/','/','1','0','.','0','.','0','.','1','/','a','/','e','v','t']),
+   (['h','t','t','p',':','/','/','1','0','.','0','.','0','.','1','/','a','/','b','/','d','e','s','c','.','x','m','l','?','x','=','1'], ['.','/','s','.','x','m','l'], ['h','t','t','p',':','/','/','1','0','.','0','.','0','.','1','/','a','/','b','/','s','.','x','m','l']),
+   (['h','t','t','p',':','/','/','1','0','.','0','.','0','.','1','/','a','/','b','/','d','e','s','c','.','x','m','l','?','x','=','1'], ['.','.','/','.','.','/','x','/','.','/','s','/','.','.','/','s','2'], ['h','t','t','p',':','/','/','1','0','.','0','.','0','.','1','/','x','/','s','2']),
+   (['h','t','t','p',':','/','/','1','0','.','0','.','0','.','1','/','a','/','b','/','d','e','s','c','.','x','m','l','?','x','=','1'], ['h','t','t','p',':','/','/','o','t','h','e','r',':','9','9','/','x'], ['h','t','t','p',':','/','/','o','t','h','e','r',':','9','9','/','x']),
+   (['h','t','t','p',':','/','/','1','0','.','0','.','0','.','1','/','a','/','b','/','d','e','s','c','.','x','m','l','?','x','=','1'], ['/','/','n','l','.','e','x','a','m','p','l','e','/','p','?','q','=','1'], ['h','t','t','p',':','/','/','n','l','.','e','x','a','m','p','l','e','/','p','?','q','=','1']),
+   (['h','t','t','p',':','/','/','1','0','.','0','.','0','.','1','/','a','/','b','/','d','e','s','c','.','x','m','l','?','x','=','1'], ['?','q','=','2'], ['h','t','t','p',':','/','/','1','0','.','0','.','0','.','1','/','a','/','b','/','d','e','s','c','.','x','m','l','?','q','=','2']),
+   (['h','t','t','p',':','/','/','1','0','.','0','.','0','.','1','/','a','/','b','/','d','e','s','c','.','x','m','l','?','x','=','1'], ['h','t','t','p','d','/','i','.','j','p','g'], ['h','t','t','p',':','/','/','1','0','.','0','.','0','.','1','/','a','/','b','/','h','t','t','p','d','/','i','.','j','p','g']),
+   (['h','t','t','p',':','/','/','1','0','.','0','.','0','.','1','/','a','/','b','/','d','e','s','c','.','x','m','l','?','x','=','1'], ['h','t','t','p'], ['h','t','t','p',':','/','/','1','0','.','0','.','0','.','1','/','a','/','b','/','h','t','t','p']),
+   (['h','t','t','p',':','/','/','1','0','.','0','.','0','.','1','/','a','/','b','/','d','e','s','c','.','x','m','l','?','x','=','1'], ['x',':','y','/','z'], ['x',':','y','/','z']),
+   (['h','t','t','p',':','/','/','1','0','.','0','.','0','.','1','/','a','/','b','/','d','e','s','c','.','x','m','l','?','x','=','1'], ['a','/','b',':','c'], ['h','t','t','p',':','/','/','1','0','.','0','.','0','.','1','/','a','/','b','/','a','/','b',':','c']),
+   (['h','t','t','p',':','/','/','1','0','.','0','.','0','.','1','/','a','/','b','/','d','e','s','c','.','x','m','l','?','x','=','1'], ['H','T','T','P',':','/','/','U','p','.','e','x','/','x'], ['h','t','t','p',':','/','/','U','p','.','e','x','/','x']),
+   (['h','t','t','p',':','/','/','1','0','.','0','.','0','.','1','/','a','/','b','/','d','e','s','c','.','x','m','l','?','x','=','1'], ['h','t','t','p',':','r','e','l','/','x'], ['h','t','t','p',':','/','/','1','0','.','0','.','0','.','1','/','a','/','b','/','r','e','l','/','x']),
+   (['h','t','t','p',':','/','/','1','0','.','0','.','0','.','1','/','a','/','b','/','d','e','s','c','.','x','m','l','?','x','=','1'], ['h','t','t','p','s',':','r','e','l'], ['h','t','t','p','s',':','r','e','l']),
+   (['h','t','t','p',':','/','/','1','0','.','0','.','0','.','1','/','a','/','b','/','d','e','s','c','.','x','m','l','?','x','=','1'], ['h','o','s','t',':','8','0','8','0','/','p'], ['h','o','s','t',':','8','0','8','0','/','p']),
+   (['h','t','t','p',':','/','/','1','0','.','0','.','0','.','1','/','a','/','b','/','d','e','s','c','.','x','m','l','?','x','=','1'], ['a','/','.','.','/','b','/','.','.','/','.','.','/','c'], ['h','t','t','p',':','/','/','1','0','.','0','.','0','.','1','/','a','/','c']),
+   (['h','t','t','p',':','/','/','1','0','.','0','.','0','.','1','/','a','/','b','/','d','e','s','c','.','x','m','l','?','x','=','1'], ['/','d','/'], ['h','t','t','p',':','/','/','1','0','.','0','.','0','.','1','/','d','/']),
+   (['h','t','t','p','s',':','/','/','d','e','v','.','e','x','a','m','p','l','e','/','u','p','n','p','/','d','e','s','c'], ['/','c','t','l'], ['h','t','t','p','s',':','/','/','d','e','v','.','e','x','a','m','p','l','e','/','c','t','l']),
+   (['h','t','t','p','s',':','/','/','d','e','v','.','e','x','a','m','p','l','e','/','u','p','n','p','/','d','e','s','c'], ['.','.','/','e','v','t'], ['h','t','t','p','s',':','/','/','d','e','v','.','e','x','a','m','p','l','e','/','e','v','t']),
+   (['h','t','t','p','s',':','/','/','d','e','v','.','e','x','a','m','p','l','e','/','u','p','n','p','/','d','e','s','c'], ['.','.','/','.','.','/','x','/','.','/','s','/','.','.','/','s','2'], ['h','t','t','p','s',':','/','/','d','e','v','.','e','x','a','m','p','l','e','/','x','/','s','2']),
+   (['h','t','t','p','s',':','/','/','d','e','v','.','e','x','a','m','p','l','e','/','u','p','n','p','/','d','e','s','c'], ['/','/','n','l','.','e','x','a','m','p','l','e','/','p','?','q','=','1'], ['h','t','t','p','s',':','/','/','n','l','.','e','x','a','m','p','l','e','/','p','?','q','=','1']),
+   (['h','t','t','p','s',':','/','/','d','e','v','.','e','x','a','m','p','l','e','/','u','p','n','p','/','d','e','s','c'], ['h','t','t','p','d','/','i','.','j','p','g'], ['h','t','t','p','s',':','/','/','d','e','v','.','e','x','a','m','p','l','e','/','u','p','n','p','/','h','t','t','p','d','/','i','.','j','p','g']),
+   (['h','t','t','p','s',':','/','/','d','e','v','.','e','x','a','m','p','l','e','/','u','p','n','p','/','d','e','s','c'], ['x',':','y','/','z'], ['x',':','y','/','z']),
+   (['h','t','t','p','s',':','/','/','d','e','v','.','e','x','a','m','p','l','e','/','u','p','n','p','/','d','e','s','c'], ['H','T','T','P',':','/','/','U','p','.','e','x','/','x'], ['H','T','T','P',':','/','/','U','p','.','e','x','/','x']),
+   (['h','t','t','p','s',':','/','/','d','e','v','.','e','x','a','m','p','l','e','/','u','p','n','p','/','d','e','s','c'], ['h','t','t','p','s',':','r','e','l'], ['h','t','t','p','s',':','/','/','d','e','v','.','e','x','a','m','p','l','e','/','u','p','n','p','/','r','e','l']),
+   (['h','t','t','p','s',':','/','/','d','e','v','.','e','x','a','m','p','l','e','/','u','p','n','p','/','d','e','s','c'], ['a','/','.','.','/','b','/','.','.','/','.','.','/','c'], ['h','t','t','p','s',':','/','/','d','e','v','.','e','x','a','m','p','l','e','/','c']),
+   (['h','t','t','p',':','/','/','h'], ['/','c','t','l'], ['h','t','t','p',':','/','/','h','/','c','t','l']),
+   (['h','t','t','p',':','/','/','h'], ['.','/','s','.','x','m','l'], ['h','t','t','p',':','/','/','h','/','s','.','x','m','l']),
+   (['h','t','t','p',':','/','/','h'], ['/','/','n','l','.','e','x','a','m','p','l','e','/','p','?','q','=','1'], ['h','t','t','p',':','/','/','n','l','.','e','x','a','m','p','l','e','/','p','?','q','=','1']),
+   (['h','t','t','p',':','/','/','h'], ['h','t','t','p'], ['h','t','t','p',':','/','/','h','/','h','t','t','p']),
+   (['h','t','t','p',':','/','/','h'], ['H','T','T','P',':','/','/','U','p','.','e','x','/','x'], ['h','t','t','p',':','/','/','U','p','.','e','x','/','x']),
+   (['h','t','t','p',':','/','/','h'], ['h','o','s','t',':','8','0','8','0','/','p'], ['h','o','s','t',':','8','0','8','0','/','p'])
+  ]
+
+/-- **`urljoin` pinned on samples.** On these references (absolute-path, relative, dot segments beyond the
+    root, absolute, network-path, query-only, scheme-looking prefixes, foreign / own / upper-case schemes, `:` inside
+    a path) against three description URLs the model returns exactly what CPython's `urljoin` returns. -/
+theorem urljoin_samples : urlSamples.all (fun t => urljoin t.1 t.2.1 == some t.2.2) = true := by decide
+
 /-- **send_events_spec.** evented: the attribute wins over the element; only the literal `yes` is true -/
 theorem send_events_spec (v : VarSpec) :
     sendEventsOf v = true ↔
@@ -403,6 +522,13 @@ example :
               [[⟨['m'], ['i','n'], ['M','o','d','e'], ['s','t','r','i','n','g']⟩, ⟨['v'], ['o','u','t'], ['V','o','l','u','m','e'], ['u','i','2']⟩]]))
      | .error _ => false) = true := by
   refine ⟨by decide, by decide, by decide, by decide, by decide⟩
+
+open Example in
+/-- `factory_mirror` instantiated: for the example description the factory model, run on the rendered
+    trees through `serve`, returns `mirror` in both modes -/
+example (nonStrict : Bool) :
+    asyncCreateDevice fo table (serve base dev) nonStrict base 2 = mirror fo table nonStrict base dev :=
+  factory_mirror fo dev base nonStrict 2 (by decide) (by decide) (by decide)
 
 open Example in
 /-- repeated types are inside the domain: the description with twin services and twin embedded
